@@ -271,6 +271,12 @@ def restToPairs : List (Label × Value) → List Label → List (Value × Value)
     | .err e => .err e
     | .panic p => .panic p
 
+/-- the labels of the typed entries already pushed (all of them are integer labels): `seen` is seeded with them. -/
+def typedSeen (m : List (Value × Value)) : List Label :=
+  m.filterMap fun p => match p.1 with
+    | .int n => some (Label.int n)
+    | _ => none
+
 /-- `to_cbor_array` over registry labels (cannot fail). -/
 def regLabelsToValues (R : Registry) (ls : List RegLabel) : Res (List Value) := mapRes (RegLabel.toValue R) ls
 
@@ -316,7 +322,7 @@ def Header.toValue : Header → Res Value
                    | .err e => .err e
                    | .panic p => .panic p) with
           | .ok m7 =>
-            match restToPairs rest [] m7 with
+            match restToPairs rest (typedSeen m7) m7 with
             | .ok m => .ok (.map m)
             | .err e => .err e
             | .panic p => .panic p
